@@ -66,4 +66,32 @@ theorem C16_projection (evs : List LifeJudge.Ev) (c : Cluster) :
     (∀ p ∈ (runEv c evs).1, fromPeer c.peers p.1 = false → p.2 = .unknownSender) :=
   ⟨(runEv_projection evs c).1, (runEv_projection evs c).2, runEv_non_peer_replies evs c⟩
 
+/-- **C16 (an accepted peer table names every peer once).** If the table is accepted, no two ids carry the same name — so
+    the authenticated name of a caller resolves to at most one participant id, and the share computed for "the caller" is
+    the share of exactly one participant. -/
+theorem C16_accepted_peers_distinct (eps : List String) (h : peersAccepted eps = true) :
+    (eps.filterMap peerNameOf).Nodup ∧ ∀ e ∈ eps, (peerNameOf e).isSome := by
+  unfold peersAccepted at h
+  simp only [Bool.and_eq_true, List.all_eq_true, decide_eq_true_eq] at h
+  exact ⟨h.2, h.1⟩
+
+/-- … and a table with a name under two ids is refused, wherever in the table the two entries stand. -/
+theorem C16_duplicate_peer_name_refused (pre mid post : List String) (a b n : String)
+    (ha : peerNameOf a = some n) (hb : peerNameOf b = some n) :
+    peersAccepted (pre ++ a :: mid ++ b :: post) = false := by
+  unfold peersAccepted
+  have : ¬ ((pre ++ a :: mid ++ b :: post).filterMap peerNameOf).Nodup := by
+    simp only [List.filterMap_append, List.filterMap_cons, ha, hb, List.append_assoc]
+    intro hnd
+    have h1 := (List.nodup_append.mp hnd).2.1
+    simp only [List.cons_append] at h1
+    have h2 := (List.nodup_cons.mp h1).1
+    exact h2 (by simp)
+  rw [Bool.and_eq_false_iff]
+  right
+  exact decide_eq_false this
+
+-- (no `decide` examples here: kernel reduction does not get through `String.splitOn`; the driver evaluates `peersAccepted`
+--  on every table of the peer-table scenario on every run, accepted and refused ones)
+
 end Dirk.Dkg
